@@ -62,6 +62,8 @@ def gen_cdb(repo):
     need(r'const\s+char\s*\*\s*const\s+cdb_end\s*=\s*cdb_mmap\s*\+\s*st\.st_size\s*;', vg, 'cdb_end')
     nfields = int(one(r'for\s*\(\s*int\s+i\s*=\s*(\d+)\s*;\s*i\s*>\s*0\s*;\s*i--\s*\)\s*\{\s*const\s+char\s*\*fieldend\s*=\s*memchr\(\s*cdb_buf\s*,\s*\'\\0\'\s*,\s*cdb_end\s*-\s*cdb_buf\s*\)\s*;', vg, 'field loop'))
     need(r'if\s*\(\s*fieldend\s*==\s*NULL\s*\)\s*\{\s*munmap\(cdb_mmap,\s*st\.st_size\)\s*;\s*err_control\("users/cdb"\)\s*;\s*return\s+-EDONE\s*;\s*\}\s*if\s*\(\s*i\s*>\s*1\s*\)\s*cdb_buf\s*=\s*fieldend\s*\+\s*1\s*;', vg, 'field loop body')
+    need(r'if\s*\(\s*ds->userdirfd\s*>=\s*0\s*\)\s*\{\s*close\(ds->userdirfd\)\s*;\s*ds->userdirfd\s*=\s*-1\s*;\s*\}\s*if\s*\(\s*ds->domaindirfd\s*>=\s*0\s*\)\s*\{\s*close\(ds->domaindirfd\)\s*;\s*ds->domaindirfd\s*=\s*-1\s*;\s*\}', vg, 'both descriptors closed when the domain path is kept')
+    need(r'if\s*\(\s*\(\s*len\s*\+\s*1\s*!=\s*ds->domainpath\.len\s*\)\s*\|\|\s*\(\s*memcmp\(\s*ds->domainpath\.s\s*,\s*cdb_buf\s*,\s*len\s*\)\s*!=\s*0\s*\)\s*\)', vg, 'comparison with the stored domain path')
     strip = chr_lit(one(r"len\s*=\s*strlen\(cdb_buf\)\s*;\s*while\s*\(\s*\*\(\s*cdb_buf\s*\+\s*len\s*-\s*1\s*\)\s*==\s*'([^']+)'\s*\)\s*--len\s*;", vg, 'trailing slash strip'), 'strip char')
     addc = chr_lit(one(r"ds->domainpath\.s\[len\]\s*=\s*'([^']+)'\s*;\s*ds->domainpath\.s\[len\s*\+\s*1\]\s*=\s*'\\0'\s*;", vg, 'appended slash'), 'appended char')
     need(r'case\s+0\s*:\s*return\s+0\s*;\s*case\s+EMFILE\s*:\s*case\s+ENFILE\s*:\s*case\s+ENOMEM\s*:\s*return\s+-ENOMEM\s*;\s*default\s*:\s*err_control\("users/cdb"\)\s*;\s*return\s+-EDONE\s*;', vg, 'errno switch after cdb_seekmm')
